@@ -499,6 +499,11 @@ class AlignmentCollector:
             max_cov = coverage_dict[current_start]
             pos = min(current_start + 1, coverage_positions[-1] + 1)
 
+        # all reads inside a single coverage bin, or the last coverage valley is the last bin: keep the tail
+        if not split_regions:
+            return [genomic_region]
+        if split_regions[-1][1] < genomic_region[1]:
+            split_regions[-1] = (split_regions[-1][0], genomic_region[1])
         return split_regions
 
     @staticmethod
